@@ -320,6 +320,22 @@ func genScenario(r *kit.Rng, kind, tier string) *scenario {
 				kk := k
 				sc.Ops = append(sc.Ops, &opSpec{Kind: "get", Key: &kk})
 			}
+		case x >= 20 && x < 22 && r.Chance(1, 3) && l.st.Max >= 1 && l.st.Max <= 16 && l.ival >= 10: // thin: open finding RTRIP lives here
+			// drain, then repeatedly: wait a fraction of the interval, write the reported state back, take one
+			k := ks[0]
+			for j := 0; j < int(l.st.Max)+1; j++ {
+				d := uint64(0)
+				if j == 0 {
+					d = dt
+				}
+				sc.Ops = append(sc.Ops, &opSpec{Dt: d, Kind: "take", Keys: []keySpec{k}, N: 1})
+			}
+			frac := uint64(l.ival) - uint64(l.ival)/uint64(2+r.Intn(9))
+			for j := 0; j < 12+r.Intn(8); j++ {
+				kk := k
+				sc.Ops = append(sc.Ops, &opSpec{Dt: frac, Kind: "rtrip", Key: &kk})
+				sc.Ops = append(sc.Ops, &opSpec{Kind: "take", Keys: []keySpec{k}, N: 1})
+			}
 		case x < 30:
 			k := ks[0]
 			if r.Chance(1, 10) {
@@ -600,8 +616,8 @@ func shapeKey(sc *scenario) string {
 			fmt.Fprintf(&sb, "|%c+%d:%v*%d", o.Kind[0], o.Dt, o.Keys, o.N)
 		case "exceeded", "resetlimits":
 			fmt.Fprintf(&sb, "|%c+%d:%v", o.Kind[0], o.Dt, *o.Req)
-		case "get":
-			fmt.Fprintf(&sb, "|g+%d:%v", o.Dt, *o.Key)
+		case "get", "rtrip":
+			fmt.Fprintf(&sb, "|%c+%d:%v", o.Kind[0], o.Dt, *o.Key)
 		case "set":
 			fmt.Fprintf(&sb, "|s+%d:%v:%d/%d/%d", o.Dt, *o.Key, o.State.Max, o.State.Period, o.State.Taken)
 		}
